@@ -8,7 +8,17 @@ Spec == x = 0 /\ [][x' = x]_x
 Ok(ev) == CASE ev.e = "ptrop" -> PtrOpAllowed(ev)
             [] ev.e = "ptrrun" -> PtrRunAllowed(ev)
             [] ev.e = "idxrun" -> IndexRunAllowed(ev)
+            [] ev.e = "bulk" -> RangeOpAllowed(ev)
             [] OTHER -> FALSE
-Bad == {i \in 1..Len(T) : ~Ok(T[i])}
-ASSUME PrintT(<<"RESULT", ToJson([bad |-> Bad, n |-> Len(T)])>>)
+CONSTANT OpenFindings     \* ids of the open entries of known_findings.json
+\* Named deviations: what the code is known to do outside the Contract (DESIGN.md section 7).
+\* D17: copy_and_verify_string measures the string with strlen before any range check, so an
+\*      unterminated string that runs to the end of sandbox memory is read past the sandbox.
+Deviation(ev) ==
+  IF "D17" \in OpenFindings /\ ev.e = "bulk" /\ ev.op = "copy_and_verify_string" /\ ev.out = "fault"
+     /\ ~AllLegal(ev) /\ ev.tcount = 0
+    THEN "D17" ELSE ""
+Known == {i \in 1..Len(T) : ~Ok(T[i]) /\ Deviation(T[i]) # ""}
+Bad == {i \in 1..Len(T) : ~Ok(T[i]) /\ Deviation(T[i]) = ""}
+ASSUME PrintT(<<"RESULT", ToJson([bad |-> Bad, known |-> {[i |-> i, id |-> Deviation(T[i])] : i \in Known}, n |-> Len(T)])>>)
 =============================================================================
